@@ -122,6 +122,18 @@ end
 zinf_call :: fn f, x ->
     x
 end
+
+zlen :: fn l: [*A] -> int do
+    0
+end
+
+zid :: fn a: *A -> *A do
+    a
+end
+
+Zbq :: blob {
+    f: fn int -> int,
+}
 "#;
 
 // ---------------------------------------------------------------- C03 kinds
@@ -185,6 +197,17 @@ pub const C03_KINDS: &[Kind] = &[
     k("generic `a + b` called with int and str variables", Body::Stmts(&["zi :: 2", "zs :: \"x\"", "zgen_add(zi, zs)"])),
     k("Num-constrained abs called with str variable", Body::Stmts(&["zs :: \"x\"", "zq := abs(zs)"])),
     k("mutable variable of one type passed where another is needed", Body::Stmts(&["zm := \"x\"", "zm = zm + \"y\"", "zh1(zm)"])),
+    // a wrongly typed `ret` in every control-flow position of the function body (trailing and not)
+    k("ret of another type in trailing if (else yields the value)", Body::Stmts(&["zf :: fn zx: int -> int do", "    if zx < 0 do", "        ret \"s\"", "    else do", "        1", "    end", "end"])),
+    k("ret of a value in trailing if of a void function", Body::Stmts(&["zf :: fn zx: int do", "    if zx > 1 do", "        ret \"big\"", "    end", "end"])),
+    k("ret of another type in trailing case arm", Body::Stmts(&["zf :: fn zx: int -> int do", "    case Ze2.B do", "        A zy ->", "            ret \"s\"", "        end", "        else", "            1", "        end", "    end", "end"])),
+    k("ret of another type in trailing block", Body::Stmts(&["zf :: fn -> int do", "    do", "        ret \"s\"", "    end", "end"])),
+    k("two rets of different types in the arms of a trailing if", Body::Stmts(&["zf :: fn zc: bool ->", "    if zc do", "        ret 1", "    else do", "        ret \"s\"", "    end", "end"])),
+    k("ret of another type in an if that ends an inner if", Body::Stmts(&["zf :: fn zc: bool -> int do", "    if zc do", "        if zc do", "            ret \"s\"", "        end", "    end", "    1", "end"])),
+    k("ret of another type in a non-trailing if of a trailing else arm", Body::Stmts(&["zf :: fn zc: bool -> int do", "    if zc do", "        2", "    else do", "        if zc do", "            ret \"s\"", "        end", "        1", "    end", "end"])),
+    k("ret of another type in an if-expression bound to a constant", Body::Stmts(&["zf :: fn zc: bool -> int do", "    zq :: if zc do", "        ret \"s\"", "    else do", "        1", "    end", "    zq", "end"])),
+    k("ret of another type in a loop body", Body::Stmts(&["zf :: fn zc: bool -> int do", "    loop zc do", "        ret \"s\"", "    end", "    1", "end"])),
+    k("ret of another type in an if-expression operand of the trailing expression", Body::Stmts(&["zf :: fn zc: bool -> int do", "    1 + if zc do", "        ret \"s\"", "    else do", "        1", "    end", "end"])),
 ];
 
 // ---------------------------------------------------------------- C04 kinds
@@ -231,6 +254,14 @@ pub const C04_KINDS: &[Kind] = &[
         body: Body::Stmts(&["za: fn int -> int : hzi", "zp: pu int -> int : za"]),
         hazard: Some(("*", "impure_through_fn_annotated_intermediate")),
     },
+    // impure functions reaching a `pu` slot through containers whose inference class was grown by generic uses first
+    k("impure function in list (used generically before) passed as list of pu", Body::Stmts(&["zl: [fn int -> int] = []", "zk :: zlen(zl)", "zl = [hzi]", "zh :: fn fs: [pu int -> int] do", "end", "zh(zl)"])),
+    k("impure function in list passed as list of pu", Body::Stmts(&["zl: [fn int -> int] = []", "zl = [hzi]", "zh :: fn fs: [pu int -> int] do", "end", "zh(zl)"])),
+    k("list of impure functions (used generically twice) bound to list of pu", Body::Stmts(&["zl: [fn int -> int] = [hzi]", "zk :: zlen(zl)", "zk2 :: zlen(zl)", "zp: [pu int -> int] : zl"])),
+    k("impure function variable (used generically before) bound to pu", Body::Stmts(&["za: fn int -> int = hzi", "zb :: zid(za)", "zp: pu int -> int : za"])),
+    k("tuple with impure function (used generically before) bound to tuple with pu", Body::Stmts(&["zt: (fn int -> int, int) = (hzi, 1)", "zk :: zid(zt)", "zp: (pu int -> int, int) : zt"])),
+    k("impure function from fn blob field (used generically before) bound to pu", Body::Stmts(&["zo := Zbq { f: hzi }", "zk :: zid(zo.f)", "zp: pu int -> int : zo.f"])),
+    k("fn literal stored late into generically used list, bound to list of pu", Body::Stmts(&["zl: [fn int -> int] = []", "zk :: zlen(zl)", "zk3 :: zid(zl)", "zl = [fn x: int -> int do x end]", "zp: [pu int -> int] : zl"])),
 ];
 
 // ---------------------------------------------------------------- C05 kinds
